@@ -3,6 +3,8 @@
 extern "C" {
 void vp_assert(bool cond, const char *msg);   // becomes __CPROVER_assert(cond, "PROP: msg")
 void vp_assume(bool cond);
+bool vp_case_bool(unsigned i);               // i-th structural choice: constant under -DVP_CASE=<mask>, else nondeterministic
+unsigned vp_case_u(unsigned shift, unsigned n);  // small enumeration choice (< n) from bits [shift..] of VP_CASE, else nondeterministic
 unsigned char vp_u8(); unsigned short vp_u16(); unsigned vp_u32(); unsigned long long vp_u64(); bool vp_bool();
 }
 static inline int vp_int() { return (int)vp_u32(); }
